@@ -278,8 +278,11 @@ def _inline_shift(fr: Frame, op, l, r, node):
 # K7/K8/K9/K10  fragments and accessors
 
 
-def _structured_obj(I: Interp, ci: ClassInfo, name: str, spans: Dict[int, tuple], five_prime=True) -> AObj:
+def _structured_obj(I: Interp, ci: ClassInfo, name: str, spans: Dict[int, tuple], five_prime=True, plain=False) -> AObj:
     rec = circ_record("W:" + name, ident=name)
+    if plain:
+        # the wrapped record is a plain SeqRecord (no topology annotation: searched circularly, cannot be rotated)
+        rec = ARec(False, [Piece("W:" + name, ZERO, N)], Term(name), ctor="input")
     rec.attrs["id"] = Term("id", Term(name))
     sm_cls = I.p.get_class("moclo.regex.SeqMatch")
     rm = AReMatch(ASeq("str", [Piece("W:" + name, ZERO, N), Piece("W:" + name, ZERO, N)]), spans)
@@ -346,6 +349,23 @@ def k7_fragments(ctx, pid: str, which=("K7", "K8", "K9", "K10")):
             return out
 
         emit(ctx, run_paths(ctx, raw, make_args, facts, hooks=FRAG_HOOKS, post=post), raw.where())
+
+        # the same accessor on a plain SeqRecord (the library wraps whatever it is given): nothing, or the right fragment
+        def make_args_plain(I):
+            return (_structured_obj(I, ci, "x", _spans(), plain=True),), {}
+
+        def post_plain(I, o):
+            if o.kind == "raise":
+                return [("%s.fragment-plain-record" % kid, raw.qualname, True, "")]
+            if pieces_of(o.value) is None:
+                return [("%s.fragment-plain-record" % kid, raw.qualname, False, "%s on a plain SeqRecord ends with %r" % (meth, o))]
+            got = I.canon(pieces_of(o.value))
+            spec = spec_fn(I)
+            return [("%s.fragment-plain-record" % kid, raw.qualname, I.same_pieces(got, spec),
+                     "on a plain (non-circular) SeqRecord %s must either fail or still be %s (the structure is searched circularly, so the "
+                     "spans can run past the end): got %s" % (meth, show_pieces(spec), show_pieces(got)))]
+
+        emit(ctx, run_paths(ctx, raw, make_args_plain, facts, hooks=FRAG_HOOKS, post=post_plain), raw.where(), "plain:")
 
     # the base classes, and every class of the kits that resolves the method to another implementation (an override in a
     # kit module is analysed like the base implementation)
